@@ -176,6 +176,7 @@ class Harness:
         self.services = {}  # pid -> strong ref to service object (until dropped)
         self.tokens = []  # identity -> small int
         self.sections = {"asyncio": 0, "trio": 0, "threading": 0}
+        self.segment = {}  # flavour -> coroutine payload currently between two of its checkpoints
         self.section_max = {"asyncio": 0, "trio": 0, "threading": 0}
         self.markers = {}
         self.exec_results = []  # records of execute calls
@@ -425,10 +426,40 @@ class Harness:
             elif not self.sync_step(pid, st):
                 raise ValueError("unknown private-loop step %r" % (st,))
 
+    def _seg_enter(self, fl, pid):
+        # a coroutine payload starts or resumes: no other payload of its flavour may be
+        # between two checkpoints right now (in another thread, or further down this stack)
+        cur = self.segment.get(fl)
+        if cur is not None and cur != pid:
+            self.ev("nested-segment", pid, flavour=fl, inside=cur)
+        self.segment[fl] = pid
+
+    def _seg_leave(self, fl, pid):
+        if self.segment.get(fl) == pid:
+            self.segment[fl] = None
+
     async def run_async(self, pid, args, kwargs, sleep, cancel_type, mode="background"):
         spec = self.specs[pid]
         fl = spec["flavour"]
         self._start_event(pid, args, kwargs, mode)
+        raw_sleep = sleep
+
+        async def checkpoint(aw):
+            self._seg_leave(fl, pid)
+            try:
+                r = await aw
+            except GeneratorExit:
+                raise  # finalised by the garbage collector, not resumed
+            except BaseException:
+                self._seg_enter(fl, pid)
+                raise
+            self._seg_enter(fl, pid)
+            return r
+
+        def sleep(d):
+            return checkpoint(raw_sleep(d))
+
+        self._seg_enter(fl, pid)
         try:
             for step in spec.get("steps", []):
                 op = step[0]
@@ -457,9 +488,9 @@ class Harness:
                     # "run until cancelled" idiom: wait on an awaitable nobody else references
                     self.ev("blocking", pid)
                     if fl == "asyncio":
-                        await asyncio.get_running_loop().create_future()
+                        await checkpoint(asyncio.get_running_loop().create_future())
                     else:
-                        await trio.sleep_forever()
+                        await checkpoint(trio.sleep_forever())
                 elif op == "swallow":
                     # a payload that shrugs off the first n cancellations (legal, if impolite):
                     # the runtime has to keep cancelling until the payload gives in
@@ -495,9 +526,10 @@ class Harness:
             length = spec.get("cleanup_async", 0)
             if length and fl == "trio":
                 with trio.CancelScope(shield=True):
-                    await trio.sleep(length)
+                    await checkpoint(trio.sleep(length))
                     self.ev("cleanup-async-done", pid)
             self.ev("finished", pid)
+            self._seg_leave(fl, pid)
         return None
 
     # -- operations usable from drivers and payloads ------------------------
